@@ -3,6 +3,7 @@
 From Coq Require Import String List.
 From LNC Require Import GoLite MessagesGen QueueGen Gbn Window GbnInv GbnSafety.
 From LNC Require TablesGen Tables Wakeup WakeupProofs.
+From LNC Require Import SyncerGen SyncerProofs.
 Open Scope Z_scope.
 
 (* every reachable state of the protocol model, all n in 1..254 *)
@@ -85,6 +86,42 @@ Theorem c09_wakeup_channels_are_buffered :
   existsb (fun r => String.eqb (snd (fst r)) "receivedACKSignal") Tables.window_wakeups = true.
 Proof. vm_compute. split; reflexivity. Qed.
 Print Assumptions c09_wakeup_channels_are_buffered.
+
+(* After a timer-driven resend round the send loop holds back new data until the round is answered
+   (syncer.waitForSync): it waits for the ACK of the LAST packet of the window, the predecessor of `top` in the
+   sequence space, or for NACK(top). gen/SyncerGen.v is gbn/syncer.go's initResendUpTo as the source has it now.
+   For every uint8 sequence space and every top inside it the call cannot panic, the expected NACK is top and the
+   expected ACK lies inside the sequence space ... *)
+Theorem c09_sync_wait_expectations_in_range : forall c top,
+  1 <= syncer_s c <= 255 -> 0 <= top < syncer_s c ->
+  exists c', syncer_initResendUpTo c top = Ok c' /\
+    syncer_s c' = syncer_s c /\ syncer_state c' = 1 /\ syncer_expectedNACK c' = top /\
+    0 <= syncer_expectedACK c' < syncer_s c /\
+    syncer_expectedACK c' = ((syncer_s c + top - 1) mod 256) mod syncer_s c.
+Proof. exact initResendUpTo_in_range. Qed.
+Print Assumptions c09_sync_wait_expectations_in_range.
+
+(* ... it IS the predecessor of top (so the ACK that ends the hold-back is the one that frees the whole window)
+   whenever s + top - 1 fits a uint8, in particular for every window of at most 127 packets ... *)
+Theorem c09_sync_wait_expects_last_packet : forall c top c',
+  1 <= syncer_s c <= 255 -> 0 <= top < syncer_s c -> syncer_s c + top <= 256 ->
+  syncer_initResendUpTo c top = Ok c' ->
+  (syncer_expectedACK c' + 1) mod syncer_s c = top.
+Proof. exact initResendUpTo_predecessor. Qed.
+Print Assumptions c09_sync_wait_expects_last_packet.
+
+(* ... and is NOT for larger windows: the uint8 sum wraps (s = 200, top = 100 gives 43, not 99). The hold-back
+   then ends only by NACK(top) or its own 3 x RTT timer: slower, and part of known finding K5 (Send held back
+   while the window has room), not a second finding: no packet is lost or reordered by it (C01 is about the queue). *)
+Theorem c09_sync_wait_expects_last_packet_refuted_for_large_windows : exists c top c',
+  1 <= syncer_s c <= 255 /\ 0 <= top < syncer_s c /\
+  syncer_initResendUpTo c top = Ok c' /\ (syncer_expectedACK c' + 1) mod syncer_s c <> top.
+Proof. exact initResendUpTo_predecessor_refuted. Qed.
+Print Assumptions c09_sync_wait_expects_last_packet_refuted_for_large_windows.
+
+Example c09_sync_ex : syncer_initResendUpTo (mk_syncer 4 0 0 0) 0 = Ok (mk_syncer 4 1 3 0)
+                   /\ syncer_initResendUpTo (mk_syncer 255 0 0 0) 1 = Ok (mk_syncer 255 1 0 1).
+Proof. split; reflexivity. Qed.
 
 Example c09_ex : queue_processACK (mk_queue (mk_queueCfg 4) [None; None; None; None] 3 1) 0
                = Ok (mk_queue (mk_queueCfg 4) [None; None; None; None] 1 1, true)
